@@ -58,8 +58,12 @@ StringOK(d, h) == /\ h >= 0 /\ h + 4 <= Len(d)
                   /\ U32(d, h) >= 0 /\ h + 4 + U32(d, h) <= Len(d)
                   /\ Utf8(d, h + 4, h + 4 + U32(d, h))
 
-VARIABLES pi, pos, starts, jumps, bad, lastop
-vars == <<pi, pos, starts, jumps, bad, lastop>>
+VARIABLES pi, pos, starts, jumps, bad, lastop,
+          clos,     \* Closure instructions seen: [at, h (label handle)]
+          regs,     \* RegisterUpvalue instructions: [at, clo (the Closure instruction they complete), idx, loc]
+          uses,     \* ReadUpvalue / SetUpvalue: [at, idx]
+          lastclo   \* position of the last Closure instruction
+vars == <<pi, pos, starts, jumps, bad, lastop, clos, regs, uses, lastclo>>
 
 P == Rec[pi]
 Problem(kind, at) == [kind |-> kind, at |-> at]
@@ -81,7 +85,23 @@ Local(op, bc, o) ==
     [] op = "RegisterUpvalue" -> (IF bc[o + 3] > 1 THEN {Problem("register-upvalue-flag", o)} ELSE {})
     [] OTHER -> {}
 
-Init == pi = 1 /\ pos = 0 /\ starts = {} /\ jumps = {} /\ bad = {} /\ lastop = ""
+Init == pi = 1 /\ pos = 0 /\ starts = {} /\ jumps = {} /\ bad = {} /\ lastop = "" /\ clos = {} /\ regs = {} /\ uses = {} /\ lastclo = -1
+
+\* ---- upvalue indices against what the compiler declared ---------------------------------------------
+\* A closure is emitted as  Goto end; <body at its label> ... ; end: Closure label arity; (CopyLast RegisterUpvalue idx loc)*
+\* so its body is [label position, position of the Closure instruction) and it declares as many upvalues as
+\* RegisterUpvalue instructions complete it.  ReadUpvalue / SetUpvalue and a pass-through RegisterUpvalue (loc = 0)
+\* address the upvalues of the innermost closure whose body contains them.
+LabelPos(hd) == IF \E j \in 1..Len(P.labels) : P.labels[j].h = hd
+                THEN P.labels[CHOOSE j \in 1..Len(P.labels) : P.labels[j].h = hd].pos ELSE -1
+Body(c) == [from |-> LabelPos(c.h), to |-> c.at]
+Encl(p) == {c \in clos : Body(c).from >= 0 /\ Body(c).from <= p /\ p < Body(c).to}
+Innermost(p) == CHOOSE c \in Encl(p) : \A d \in Encl(p) : Body(d).from <= Body(c).from
+Declared(c) == Cardinality({r \in regs : r.clo = c.at})
+UpvalueProblems ==
+  {Problem("upvalue-index-not-declared-by-the-enclosing-closure", u.at) :
+     u \in {u \in uses \cup {[at |-> r.at, idx |-> r.idx] : r \in {r \in regs : r.loc = 0}} :
+              Encl(u.at) = {} \/ u.idx >= Declared(Innermost(u.at))}}
 \* whole-program conditions, evaluated when the walk has reached the end
 Final ==
   LET bc == P.bc IN
@@ -89,6 +109,7 @@ Final ==
   \cup {Problem("label-not-an-instruction-start", P.labels[j].pos) : j \in {j \in 1..Len(P.labels) : P.labels[j].pos \notin starts}}
   \cup {Problem("trace-key-not-an-instruction-start", k) : k \in {P.trace[j] : j \in 1..Len(P.trace)} \ starts}
   \cup {Problem("fallible-instruction-without-trace", s) : s \in {s \in starts : Name(bc[s + 1]) \notin Infallible} \ {P.trace[j] : j \in 1..Len(P.trace)}}
+  \cup UpvalueProblems
   \cup (IF lastop = "Exit" THEN {} ELSE {Problem("does-not-end-with-exit", Len(bc))})
   \cup (IF P.nids = P.nnames THEN {} ELSE {Problem("variable-tables-differ-in-size", 0)})
   \cup {Problem("variable-id-without-name-or-wrong-back-reference", P.vars[j].id) :
@@ -102,6 +123,7 @@ Verdict(problems) ==
 NextProgram(problems) ==
   /\ Verdict(problems)
   /\ pi' = pi + 1 /\ pos' = 0 /\ starts' = {} /\ jumps' = {} /\ bad' = {} /\ lastop' = ""
+  /\ clos' = {} /\ regs' = {} /\ uses' = {} /\ lastclo' = -1
 
 Next ==
   /\ pi <= N
@@ -117,6 +139,10 @@ Next ==
                     /\ lastop' = op
                     /\ jumps' = IF op \in {"Goto", "GotoIfTrue", "GotoIfFalse"} THEN jumps \cup {[at |-> pos, to |-> U32(bc, pos + 1)]} ELSE jumps
                     /\ bad' = bad \cup Local(op, bc, pos)
+                    /\ clos' = IF op = "Closure" THEN clos \cup {[at |-> pos, h |-> Handle(bc, pos + 1)]} ELSE clos
+                    /\ lastclo' = IF op = "Closure" THEN pos ELSE lastclo
+                    /\ regs' = IF op = "RegisterUpvalue" THEN regs \cup {[at |-> pos, clo |-> lastclo, idx |-> bc[pos + 2], loc |-> bc[pos + 3]]} ELSE regs
+                    /\ uses' = IF op \in {"ReadUpvalue", "SetUpvalue"} THEN uses \cup {[at |-> pos, idx |-> U32(bc, pos + 1)]} ELSE uses
 Spec == Init /\ [][Next]_vars
 AllDone == (pi = N + 1) => PrintT(<<"TRACE-DONE", N>>)
 \* the decoder never runs past the end of the program
